@@ -98,60 +98,65 @@ def binary_layout(ctx, r, F, envs):
     if arr is None or slc is None or not hf:
         ctx.missing(r, "TryFrom<&[u8; N]> / TryFrom<&[u8]> for inner FuzzyHash", cfg=F.key)
         return
-    S = sym.Sym(arr)
-    rets = [p for p in S.paths() if p.end == "return"]
-    oks = [p for p in rets if n(p.ret)[1].endswith("Result::Ok")]
-    errs = [p for p in rets if n(p.ret)[1].endswith("Result::Err")]
-    bad = []
-    if len(oks) != 1:
-        bad.append("%d Ok paths" % len(oks))
+    RB = layout.binary_reader_evaluated(F)
+    if RB is not None:
+        # decided by abstract evaluation of the array parser (rmodel): each field of the Ok value is built from its reference bytes
+        bad = list(RB["bad"])
     else:
-        okv = n(oks[0].ret)[2][0]
-        CK = ("cparam", "SIZE_CKSUM")
-        want = {
-            "checksum": ("call", "hash::checksum::FuzzyHashChecksumData::<SIZE_CKSUM, SIZE_BUCKETS>::from_raw", (V("ck"),)),
-            "lvalue": ("call", "length::FuzzyHashLengthEncoding::from_raw", (("load", ("index", ("deref", V("lview")), V("li"))),)),
-            "qratios": ("call", "hash::qratios::FuzzyHashQRatios::from_raw", (("load", ("index", ("deref", V("qview")), V("qi"))),)),
-            "body": ("call", "hash::body::FuzzyHashBodyData::<SIZE_BODY>::from_raw", (V("bd"),)),
-        }
-        if okv[0] != "agg" or len(okv[2]) != 4:
-            bad.append("Ok value %s" % sym.fmt(okv)[:80])
+        S = sym.Sym(arr)
+        rets = [p for p in S.paths() if p.end == "return"]
+        oks = [p for p in rets if n(p.ret)[1].endswith("Result::Ok")]
+        errs = [p for p in rets if n(p.ret)[1].endswith("Result::Err")]
+        bad = []
+        if len(oks) != 1:
+            bad.append("%d Ok paths" % len(oks))
         else:
-            b = {}
-            for fld, fi in hf.items():
-                if match(want[fld], okv[2][fi], b) is None:
-                    bad.append("field %s built from %s" % (fld, sym.fmt(okv[2][fi])[:100]))
-            if not bad:
-                def arr_window(e):
-                    # the sub-slice of the input an array is converted from: x[a..b], x.split_at(k).0 / .1, ...
-                    xs = find_all(e, lambda x: (x[0] == "call" and x[1].endswith("::index")) or
-                                  (x[0] == "field" and x[1][0] == "call" and x[1][1].endswith(("::split_at", "::split_at_mut"))))
-                    ws = [layout.window(x, P(1)) for x in xs]
-                    ws = [w for w in ws if w is not None]
-                    # the innermost (most specific) view is the one actually converted
-                    return ws[0] if ws else None
-                wck, wbd = arr_window(b["ck"]), arr_window(b["bd"])
-                # element reads through a view of the input: absolute offset = view start + index
-                for key_, vk in (("li", "lview"), ("qi", "qview")):
-                    if b[vk] != P(1):
-                        wv = layout.window(b[vk], P(1))
-                        if wv is None:
-                            bad.append("byte read through %s" % sym.fmt(b[vk])[:60])
-                        else:
-                            b[key_] = layout.add(wv[0], b[key_])
-                for name, env in envs:
-                    ref = ref_bin_layout(env)
-                    got = {
-                        "checksum": (layout.ceval(wck[0], env), layout.ceval(wck[1], env)) if wck else None,
-                        "lvalue": (layout.ceval(b["li"], env), layout.ceval(b["li"], env) + 1) if layout.ceval(b["li"], env) is not None else None,
-                        "qratios": (layout.ceval(b["qi"], env), layout.ceval(b["qi"], env) + 1) if layout.ceval(b["qi"], env) is not None else None,
-                        "body": (layout.ceval(wbd[0], env), layout.ceval(wbd[1], env) if wbd[1] is not None else env["SIZE_IN_BYTES"]) if wbd else None,
-                    }
-                    for fld in ref:
-                        if got[fld] != ref[fld]:
-                            bad.append("%s: %s read from %s; reference %s" % (name, fld, got[fld], ref[fld]))
-    if not strict and errs:
-        bad.append("the lenient array conversion has error exits: %s" % [sym.fmt(n(p.ret)) for p in errs][:2])
+            okv = n(oks[0].ret)[2][0]
+            CK = ("cparam", "SIZE_CKSUM")
+            want = {
+                "checksum": ("call", "hash::checksum::FuzzyHashChecksumData::<SIZE_CKSUM, SIZE_BUCKETS>::from_raw", (V("ck"),)),
+                "lvalue": ("call", "length::FuzzyHashLengthEncoding::from_raw", (("load", ("index", ("deref", V("lview")), V("li"))),)),
+                "qratios": ("call", "hash::qratios::FuzzyHashQRatios::from_raw", (("load", ("index", ("deref", V("qview")), V("qi"))),)),
+                "body": ("call", "hash::body::FuzzyHashBodyData::<SIZE_BODY>::from_raw", (V("bd"),)),
+            }
+            if okv[0] != "agg" or len(okv[2]) != 4:
+                bad.append("Ok value %s" % sym.fmt(okv)[:80])
+            else:
+                b = {}
+                for fld, fi in hf.items():
+                    if match(want[fld], okv[2][fi], b) is None:
+                        bad.append("field %s built from %s" % (fld, sym.fmt(okv[2][fi])[:100]))
+                if not bad:
+                    def arr_window(e):
+                        # the sub-slice of the input an array is converted from: x[a..b], x.split_at(k).0 / .1, ...
+                        xs = find_all(e, lambda x: (x[0] == "call" and x[1].endswith("::index")) or
+                                      (x[0] == "field" and x[1][0] == "call" and x[1][1].endswith(("::split_at", "::split_at_mut"))))
+                        ws = [layout.window(x, P(1)) for x in xs]
+                        ws = [w for w in ws if w is not None]
+                        # the innermost (most specific) view is the one actually converted
+                        return ws[0] if ws else None
+                    wck, wbd = arr_window(b["ck"]), arr_window(b["bd"])
+                    # element reads through a view of the input: absolute offset = view start + index
+                    for key_, vk in (("li", "lview"), ("qi", "qview")):
+                        if b[vk] != P(1):
+                            wv = layout.window(b[vk], P(1))
+                            if wv is None:
+                                bad.append("byte read through %s" % sym.fmt(b[vk])[:60])
+                            else:
+                                b[key_] = layout.add(wv[0], b[key_])
+                    for name, env in envs:
+                        ref = ref_bin_layout(env)
+                        got = {
+                            "checksum": (layout.ceval(wck[0], env), layout.ceval(wck[1], env)) if wck else None,
+                            "lvalue": (layout.ceval(b["li"], env), layout.ceval(b["li"], env) + 1) if layout.ceval(b["li"], env) is not None else None,
+                            "qratios": (layout.ceval(b["qi"], env), layout.ceval(b["qi"], env) + 1) if layout.ceval(b["qi"], env) is not None else None,
+                            "body": (layout.ceval(wbd[0], env), layout.ceval(wbd[1], env) if wbd[1] is not None else env["SIZE_IN_BYTES"]) if wbd else None,
+                        }
+                        for fld in ref:
+                            if got[fld] != ref[fld]:
+                                bad.append("%s: %s read from %s; reference %s" % (name, fld, got[fld], ref[fld]))
+        if not strict and errs:
+            bad.append("the lenient array conversion has error exits: %s" % [sym.fmt(n(p.ret)) for p in errs][:2])
     ctx.ob(r, ("TryFrom<&[u8; N]>", "field-windows"), not bad, "; ".join(bad[:3]), cfg=F.key, where=arr.where())
     # slice conversion
     # slice conversion, decided by abstract evaluation (any spelling: length test + try_into().unwrap(), or match on the
